@@ -1,6 +1,7 @@
 """C14 native harness (bounded, exhaustive small scope): displayed signature read back as Python."""
 from __future__ import annotations
 import inspect
+import os
 import itertools
 import random
 import re
@@ -13,6 +14,7 @@ DEFAULTS = ['1', "'s'", 'None', '(1, 2)', 'a.b', '-1', '[]', 'x or y', "'\\x1f'"
             # rendered through astor (which wraps long lines)
             '[i * 1000000 for i in range(3) if i % 7 == 3 or i % 11 == 5 or i % 13 == 7 or i > 100000000000]',
             'x < y < 100000000000000000 < 200000000000000000 < 300000000000000000 < 400000000000000000000',
+            "f'x\\n{y}'", "f'{x!r:>10}\\t{{}}'",
             # known findings (recognised by their specific witness, see _check)
             "'non\xa0breaking'", '(1,)', '1e999']
 ANNS = ['int', "'str'", 'List[int]', 'None', 'a.B', "Literal['r', 'w']", "t.Literal['r']", "typing_extensions.Literal['x y']",
@@ -267,7 +269,116 @@ def _check0(case):
     return None
 
 
+PAGE_MODULE = '''\
+from typing import overload, List
+import typing as t
+from sg import _impl
+class Shown:
+    "doc"
+    DEFAULT = 0
+    class Options:
+        "doc"
+@overload
+def f(a: int) -> int: ...
+@overload
+def f(a: str, b=1) -> str: ...
+def f(a, b=2):
+    "doc"
+def g(x, /, y=(1, 2), *a, k: "int" = None, **kw) -> None:
+    "doc"
+def h(backend: _impl.Backend = _impl.Backend.DEFAULT, opts: "_impl.Backend.Options" = None, shown: Shown.Options = Shown.DEFAULT) -> _impl.Backend:
+    "names that resolve to hidden and to visible objects"
+async def co(a, *, b: List[int] = [1]) -> 'Shown':
+    "doc"
+class K:
+    "doc"
+    @overload
+    def m(self, a: int) -> int: ...
+    @overload
+    def m(self, a: str, *rest: bytes) -> str: ...
+    def m(self, a, *rest):
+        "doc"
+    @staticmethod
+    def s(a=Shown.DEFAULT, /, *, b: _impl.Backend = None): "doc"
+    @classmethod
+    def c(cls, *args: int, **kw: t.Dict[str, int]) -> 'K': "doc"
+    def plain(self): "doc"
+'''
+PAGE_IMPL = 'class Backend:\n    "doc"\n    DEFAULT = 1\n    class Options:\n        "doc"\n'
+
+
+def _page_cases(tier, seed):
+    yield {'page': 'default', 'argv': []}
+    yield {'page': 'hidden-targets', 'argv': ['--privacy=HIDDEN:sg._impl.Backend']}
+    yield {'page': 'hidden-module', 'argv': ['--privacy=HIDDEN:sg._impl']}
+    yield {'page': 'readthedocs', 'argv': ['--theme', 'readthedocs', '--privacy=PRIVATE:sg.Shown']}
+    if tier == 'thorough':
+        yield {'page': 'classic', 'argv': ['--theme', 'classic']}
+
+
+def _check_pages(case):
+    """the signatures as they stand on the written pages (through the templates of the theme), read back as Python and compared with the
+    source: one per definition, overloads each with their own, names spelled as written whether or not their target is documented"""
+    import ast, html as _html
+    from replay import site
+    files = {'sg/__init__.py': PAGE_MODULE, 'sg/_impl.py': PAGE_IMPL}
+    rc, out, d = site.run_project(files, case['argv'])
+    try:
+        if rc not in (0, 2, 3):
+            return {'observed': f'run ended with {rc}', 'required': 'a normal run', 'class': 'abort'}
+        tree = ast.parse(PAGE_MODULE)
+        written = {}       # qualified name -> list of FunctionDef in source order (overloads first, the implementation last)
+        for scope, body in (('sg', tree.body), ('sg.K', next(n for n in tree.body if isinstance(n, ast.ClassDef) and n.name == 'K').body)):
+            for st in body:
+                if isinstance(st, (ast.FunctionDef, ast.AsyncFunctionDef)):
+                    written.setdefault(f'{scope}.{st.name}', []).append(st)
+        fails = []
+        for qual, defs in written.items():
+            page = 'index.html' if qual.count('.') == 1 else 'sg.K.html'
+            text = open(os.path.join(d, 'out', page), encoding='utf-8').read()
+            m = re.search(r'<a name="%s">.*?<div class="functionHeader">(.*?)<a class="headerLink"' % re.escape(qual), text, re.S)
+            if not m:
+                fails.append({'observed': f'{qual}: no entry on {page}', 'required': 'documented', 'class': 'page-missing'})
+                continue
+            shown = [_html.unescape(re.sub(r'<[^>]+>', '', x)) for x in
+                     re.findall(r'<span class="py-defname">[^<]*</span><span class="function-signature">(.*?)</span>:', m.group(1), re.S)]
+            want = defs[:-1] if len(defs) > 1 else defs          # an overloaded function shows its overloads, each with its own signature
+            if len(shown) != len(want):
+                fails.append({'observed': f'{qual}: {len(shown)} signature(s) on the page ({shown}), {len(want)} expected', 'required': 'overloads each show their own signature',
+                              'class': 'page-count'})
+                continue
+            for sig, fd in zip(shown, want):
+                try:
+                    back = ast.parse(f'def f{sig}:\n    pass\n').body[0]
+                except SyntaxError:
+                    fails.append({'observed': f'{qual}: displayed {sig!r} is not Python', 'required': 'reads back', 'class': 'page-unreadable'})
+                    continue
+                exp = ast.parse(ast.unparse(fd)).body[0]
+                exp.returns = None if (exp.returns is None or ast.unparse(exp.returns) == 'None') else exp.returns
+                for a_ in _all_args(exp) + ([exp] if exp.returns is not None else []):
+                    pass
+                def norm(fn):
+                    parts = []
+                    for a_ in _all_args(fn):
+                        parts.append((a_.arg, _unstring(a_.annotation)))
+                    ar = fn.args
+                    parts.append(('defaults', [ast.dump(x) for x in ar.defaults], [ast.dump(x) if x else None for x in ar.kw_defaults]))
+                    parts.append(('kinds', len(ar.posonlyargs), len(ar.args), bool(ar.vararg), len(ar.kwonlyargs), bool(ar.kwarg)))
+                    parts.append(('returns', _unstring(fn.returns)))
+                    return parts
+                if norm(back) != norm(exp):
+                    fails.append({'observed': f'{qual}: written {ast.unparse(fd).splitlines()[-2] if False else ast.unparse(fd.args)!r} is displayed as {sig!r}',
+                                  'required': 'the signature that was written', 'class': 'page-signature:' + case['page']})
+        return fails or None
+    finally:
+        site.cleanup(d)
+
+
 HARNESS = {
+    'pydoctor/templatewriter/pages/__init__.py:format_function_def': {'cases': _page_cases, 'check': _check_pages,
+        'covers': ['pydoctor/themes/base/function-child.html', 'pydoctor/templatewriter/pages/__init__.py:format_overloads', 'pydoctor/linker.py:taglink'],
+        'bound': 'one module with 9 definitions (overloaded function and method, static/class/async, dotted names that resolve to visible, private and hidden objects) '
+                 'x 4 (5) option sets (privacy rules, themes); the signature spans of the written pages read back as Python'},
     f'{A}:ModuleVistor._handleFunctionDef': {'cases': _cases, 'check': _check,
         'covers': [f'{A}:ModuleVistor._annotations_from_function', 'pydoctor/astutils.py:is_none_literal'],
         'budget_s': {'quick': 120, 'thorough': 1200},
